@@ -73,6 +73,7 @@ class Engine:
         self.nomerge_fork = 0  # >0: inside an if-conversion arm: forks forbidden
         self.sentinels = {}
         self.notes: List[str] = []
+        self.fpq_sites: List[Any] = []  # (n, d, result, exactly-modelled-inexact-region) of every int(n / d)
 
     def assume(self, e: Any) -> None:
         """Add a harness pre-condition (must be called before the code it constrains)."""
@@ -727,6 +728,47 @@ class ZQuot:
         raise TypeError("ZQuot is only valid as an argument of int()")
 
 
+class ZFQuot:
+    """n / d (true division of ints, i.e. an IEEE double) waiting for int(): see sym_int (model L_fpq)"""
+
+    __slots__ = ("n", "d")
+
+    def __init__(self, n: Any, d: Any):
+        self.n = n
+        self.d = d
+
+    def __getattr__(self, n: str) -> Any:
+        raise TypeError("ZFQuot is only valid as an argument of int()")
+
+
+_FPQ = [0]
+
+
+def _fpq_int(n: Any, d: Any) -> Any:
+    """int(n / d) for mathematical ints n, d with d != 0 -- model L_fpq of the double-precision quotient:
+      * |n|, |d| < 2^53: exactly trunc(n / d) (both operands are doubles; the correctly rounded quotient cannot cross
+        an integer: a non-integral n/d is >= 1/|d| away from one, the rounding error is < |n/d| 2^-53 < 1/|d|);
+      * d == 1 and 2^53 <= n < 2^54: n rounded to even mantissa (spacing 2, ties to even) -- the one region where
+        the inexact result is modelled exactly, so that a counterexample can be confirmed natively;
+      * otherwise: some integer within relative error 2^-52 (+1) of the true quotient (sound over-approximation)."""
+    _FPQ[0] += 1
+    r = z3.Int(f"fpq!{_FPQ[0]}")
+    an, ad = z3.If(n >= 0, n, -n), z3.If(d >= 0, d, -d)
+    q = an / ad
+    t = z3.If((n >= 0) == (d > 0), q, -q)
+    B = 2 ** 53
+    exact = z3.And(an < B, ad < B)
+    tie = z3.And(d == 1, n >= B, n < 2 * B)
+    tie_val = z3.If(n % 2 == 0, n, z3.If(((n + 1) / 2) % 2 == 0, n + 1, n - 1))
+    slack = q / (2 ** 52) + 1
+    ENGINE.assume(z3.Implies(exact, r == t))
+    ENGINE.assume(z3.Implies(tie, r == tie_val))
+    ENGINE.assume(z3.And(r >= t - slack, r <= t + slack))
+    ENGINE.notes.append("L_fpq")
+    ENGINE.fpq_sites.append((n, d, r, tie))
+    return r
+
+
 class ZInt(SymInt):
     __slots__ = ("e",)
 
@@ -831,7 +873,16 @@ class ZInt(SymInt):
     def __truediv__(self, o: Any) -> Any:
         if isinstance(o, int) and not isinstance(o, bool) and o > 0 and (o & (o - 1)) == 0:
             return ZQuot(self, o)
-        raise Unsupported("true division on a symbolic int by anything but a constant power of two")
+        d = ZInt.lift(o)
+        if d is None:
+            return NotImplemented
+        return ZFQuot(self.e, d)
+
+    def __rtruediv__(self, o: Any) -> Any:
+        n = ZInt.lift(o)
+        if n is None:
+            return NotImplemented
+        return ZFQuot(n, self.e)
 
     def __lshift__(self, o: Any) -> Any:
         if isinstance(o, int):
@@ -1098,6 +1149,10 @@ class sym_int(metaclass=_IntMeta):
                 raise Unsupported("int(x / 2^k) outside 0 <= x < 2^53 (lemma L_fp does not apply)")
             ENGINE.notes.append("L_fp")
             return _mkz((n.e / x.d))
+        if isinstance(x, ZFQuot):
+            if ENGINE.branch(x.d == 0):
+                raise modelled(ZeroDivisionError("division by zero"))
+            return ZInt(_fpq_int(x.n, x.d))
         return int(x, *a)
 
     from_bytes = int.from_bytes
